@@ -23,12 +23,12 @@ non-trivial = candidates come from >= 2 quintants/faces, or the point is in the 
 (point bits, resolution).";
 
 /// All rings of a resolution, built once per process (in parallel).
-fn all_rings(res: i32) -> &'static Vec<RingInfo> {
-    static R: [OnceLock<Vec<RingInfo>>; 6] = [OnceLock::new(), OnceLock::new(), OnceLock::new(), OnceLock::new(), OnceLock::new(), OnceLock::new()];
+fn all_rings(res: i32) -> &'static Result<Vec<RingInfo>, String> {
+    static R: [OnceLock<Result<Vec<RingInfo>, String>>; 6] = [OnceLock::new(), OnceLock::new(), OnceLock::new(), OnceLock::new(), OnceLock::new(), OnceLock::new()];
     R[res as usize].get_or_init(|| {
         let n = codec::num_cells(res) as u64;
         let sub = if res <= 3 { 64 } else { 32 };
-        let chunks: Vec<Vec<RingInfo>> = std::thread::scope(|sc| {
+        let chunks: Vec<Result<Vec<RingInfo>, String>> = std::thread::scope(|sc| {
             let hs: Vec<_> = (0..WORKERS as u64)
                 .map(|w| {
                     sc.spawn(move || {
@@ -36,15 +36,23 @@ fn all_rings(res: i32) -> &'static Vec<RingInfo> {
                         let mut v = Vec::new();
                         for i in (w * per)..((w + 1) * per).min(n) {
                             let c = gen::cell_by_index(res, i);
-                            v.push(contain::ring_info(codec::encode(&c), &c, sub).expect("boundary of a valid cell"));
+                            let id = codec::encode(&c);
+                            match guarded(|| contain::ring_info(id, &c, sub)) {
+                                Ok(r) => v.push(r),
+                                Err(e) => return Err(format!("cell_to_boundary({:#x}) of a valid cell failed: {}", id, e)),
+                            }
                         }
-                        v
+                        Ok(v)
                     })
                 })
                 .collect();
-            hs.into_iter().map(|h| h.join().unwrap()).collect()
+            hs.into_iter().map(|h| h.join().unwrap_or_else(|_| Err("ring builder thread died".into()))).collect()
         });
-        chunks.into_iter().flatten().collect()
+        let mut all = Vec::new();
+        for c in chunks {
+            all.extend(c?);
+        }
+        Ok(all)
     })
 }
 
@@ -140,7 +148,7 @@ fn verdict(p: V3, lon: f64, lat: f64, res: i32, t: &Tally, class: &str, tier_nam
 fn check_exhaustive(src: &super::c01::Src, res: i32, st: &mut Stats) -> Result<(), String> {
     let (lon, lat, class) = src.lonlat()?;
     let p = vec_of_lonlat(lon, lat);
-    let rings = all_rings(res);
+    let rings = all_rings(res).as_ref().map_err(|e| e.clone())?;
     let t = judge(p, rings.iter())?;
     verdict(p, lon, lat, res, &t, class, "exhaustive", st)
 }
